@@ -31,6 +31,10 @@ _SHAPES = [
     ("SHAPE_TRUNC_MAX_BIN", "parquet/src/column/writer/mod.rs", "Err(_) => increment(data[..l].to_vec()), } } else { increment(data[..l].to_vec()) }"),
     ("SHAPE_TRUNC_EXACT", "parquet/src/column/writer/mod.rs", ".with_max_is_exact(!did_truncate_max) .with_min_is_exact(!did_truncate_min),"),
     ("SHAPE_CAN_TRUNCATE", "parquet/src/column/writer/mod.rs", "Type::BYTE_ARRAY => true,"),
+    ("SHAPE_NO_TRUNCATE_FLBA", "parquet/src/column/writer/mod.rs", "Type::FIXED_LEN_BYTE_ARRAY if !matches!( self.descr.logical_type_ref(), Some(&LogicalType::Decimal { .. } | &LogicalType::Float16) ) => { true }"),
+    ("SHAPE_NO_TRUNCATE_DECIMAL", "parquet/src/column/writer/mod.rs", "Type::BYTE_ARRAY if matches!(self.descr.logical_type_ref(), Some(&LogicalType::Decimal { .. })) || self.descr.converted_type() == ConvertedType::DECIMAL => { false }"),
+    ("SHAPE_TRUNC_STATS_BA_GUARD", "parquet/src/column/writer/mod.rs", "Statistics::ByteArray(stats) if (stats._internal_has_min_max_set() && self.can_truncate_value()) =>"),
+    ("SHAPE_TRUNC_STATS_FLBA_GUARD", "parquet/src/column/writer/mod.rs", "Statistics::FixedLenByteArray(stats) if (stats._internal_has_min_max_set() && self.can_truncate_value()) =>"),
     ("SHAPE_TRUNCATE_UTF8", "parquet/src/column/writer/mod.rs", "let split = (1..=length).rfind(|x| data.is_char_boundary(*x))?; Some(data.as_bytes()[..split].to_vec())"),
     ("SHAPE_TRUNC_INC_UTF8", "parquet/src/column/writer/mod.rs", "let split = (lower_bound..=length).rfind(|x| data.is_char_boundary(*x))?; increment_utf8(data.get(..split)?)"),
     ("SHAPE_INC_UTF8", "parquet/src/column/writer/mod.rs", "if let Some(next_char) = char::from_u32(original_char as u32 + 1) { // do not allow increasing byte width of incremented char if next_char.len_utf8() == original_len {"),
